@@ -56,7 +56,7 @@ class Run:
     """One history executed on the real InotifyObserver."""
 
     def __init__(self, *, recursive=True, full=False, path_kind="str", init_tree=None, event_filter=None,
-                 drop_noise=True, root_spelling="abs"):
+                 drop_noise=True, root_spelling="abs", late_at=()):
         self.sc = gated.scratch()
         self.root_spelling = root_spelling
         self._cwd = None
@@ -82,6 +82,12 @@ class Run:
         self.spelled_root = spelled
         self.g = gated.GatedObserver(spelled, recursive=recursive, full=full, path_kind=path_kind,
                                      event_filter=event_filter, drop_noise=drop_noise)
+        # late_at: at the n-th inotify_add_watch call (counted from the start of the watch) another process creates a
+        # sub-directory in the very directory that is about to be watched - between whatever listing of it the library
+        # has done and the moment the kernel starts reporting.  Such runs have no model case (oracles only).
+        self.late = []
+        for n in late_at:
+            self.g.add_watch_hooks[n] = self._late_hook
         for pth, _ in self.init_fs:
             self._register(pth)
         self.shadow = {tuple(os.path.relpath(os.fsdecode(pth), self.sc).split("/")): d for pth, d in self.init_fs}
@@ -93,6 +99,14 @@ class Run:
         self.g.start()
         self.g.read()            # initial directory-scan noise
         self.started_noise = self.g.noise
+
+    def _late_hook(self, path):
+        p = os.path.join(os.fsdecode(path), f"late{len(self.late)}")
+        try:
+            os.mkdir(p)
+            self.late.append(p)
+        except OSError:
+            pass
 
     def _register(self, p):
         try:
